@@ -290,6 +290,11 @@ fn form_strategy() -> BoxedStrategy<Form> {
 impl Property for C08 {
     type Case = Case;
 
+    fn fuzz(&self) -> Option<FuzzSpec> {
+        // entropy-driven target: libFuzzer's bytes replace the generator's random numbers
+        Some(FuzzSpec { target: "gen", jobs: 8, runs: 1_500_000, max_len: 256, seeds: 64 })
+    }
+
     fn id(&self) -> &'static str {
         "C08"
     }
